@@ -2,6 +2,7 @@
   C09  Broadcasting replicates prefix leaves onto the matching positions.
 -/
 import OptreeModel.Model.Ops
+import OptreeModel.Lemmas.EncBroadcast
 
 namespace Optree
 
@@ -77,5 +78,244 @@ def C09_demo : Spec :=
     noneIsLeaf := false, ns := "" }
 
 example : C09_demo.sane = true := by decide
+
+/-! ### refinement: the merge walk computes the least common suffix of the two shapes
+
+`STree.lub` (Model/STree.lean) is the property's "least structure that both are prefixes of", as a
+structural recursion: a leaf gives way to the other side; compatible nodes are merged child by child
+(by position, or by key for the dict kinds) keeping the first operand's node. -/
+
+/-- **`broadcast_to_common_suffix` on encodings is `lub`**: `ValueError` exactly on a conflict, otherwise the
+encoding of the merged shape — for all well-formed shapes whose payloads fit their kinds, any nesting,
+any dict key orders.  (The C++ walks both arrays with integer cursors, writes the result in reverse
+post-order and patches each node's counts after every child.) -/
+theorem C09_broadcast_refines (a b : STree) (ha : a.wf = true) (hfa : a.fitsT = true) (hb : b.wf = true)
+    (hfb : b.fitsT = true) (nil : Bool) (ns ns' : String) (hc : nsCompatible ns ns' = true) :
+    broadcast (a.spec nil ns) (b.spec nil ns') = bcastSpec a b nil (mergeNs ns ns') := by
+  rw [broadcast_enc a b ha hfa hb hfb]
+  simp [hc]
+
+/-- spelled out: a conflict is a `ValueError`, otherwise the result is the treespec of `lub a b` -/
+theorem C09_broadcast_cases (a b : STree) (nil : Bool) (ns : String) :
+    (a.lub b = Option.none → bcastSpec a b nil ns = .error .value) ∧
+    (∀ c, a.lub b = some c → bcastSpec a b nil ns = .ok (c.spec nil ns)) := by
+  constructor
+  · intro h; simp [bcastSpec, h]
+  · intro c h; simp [bcastSpec, h]
+
+/-- a leaf is replaced by the whole other operand, on either side -/
+theorem C09_lub_leaf (b : STree) : STree.leaf.lub b = some b ∧ (∀ i cs, (STree.node i cs).lub .leaf = some (.node i cs)) :=
+  ⟨rfl, fun _ _ => rfl⟩
+
+mutual
+/-- the prefix relation is reflexive on well-formed shapes -/
+theorem STree.prefixB_refl : ∀ a : STree, a.wf = true → a.prefixB a = true
+  | .leaf, _ => rfl
+  | .node i cs, h => by
+      obtain ⟨hnl, _, hdict, hw⟩ := STree.wf_node h
+      have hl := STree.prefixL_refl cs hw
+      simp only [STree.prefixB, beq_self_eq_true, Bool.true_and]
+      rcases Kind.cases_eq i.kind with hk | hk | hk | hk | hk | hk | hk | hk | hk | hk | hk
+      · simp only [hk, beq_self_eq_true, hl, Bool.and_true, Bool.true_and]; cases i.data.isSome <;> simp
+      · exact absurd hk hnl
+      · simp [hk, hl]
+      · simp [hk, hl]
+      · simp [hk, hl]
+      · obtain ⟨hkl, hnd⟩ := hdict (by simp [hk, Kind.isDict])
+        have hks : keySetEq i.keys i.keys = true := (keySetEq_iff _ _).mpr ⟨rfl, fun _ h => h⟩
+        simp only [hk, Kind.isDict, hks, Bool.true_and]
+        have := STree.prefixD_eq i.keys cs hkl i.keys cs hkl (fun _ h => h)
+        rw [this, pickD_self i.keys cs hkl hnd]; exact hl
+      · simp only [hk, beq_self_eq_true, hl, Bool.and_true, Bool.true_and]; cases i.data.isSome <;> simp
+      · obtain ⟨hkl, hnd⟩ := hdict (by simp [hk, Kind.isDict])
+        have hks : keySetEq i.keys i.keys = true := (keySetEq_iff _ _).mpr ⟨rfl, fun _ h => h⟩
+        simp only [hk, Kind.isDict, hks, Bool.true_and]
+        have := STree.prefixD_eq i.keys cs hkl i.keys cs hkl (fun _ h => h)
+        rw [this, pickD_self i.keys cs hkl hnd]; exact hl
+      · obtain ⟨hkl, hnd⟩ := hdict (by simp [hk, Kind.isDict])
+        have hks : keySetEq i.keys i.keys = true := (keySetEq_iff _ _).mpr ⟨rfl, fun _ h => h⟩
+        simp only [hk, Kind.isDict, hks, Bool.true_and]
+        have := STree.prefixD_eq i.keys cs hkl i.keys cs hkl (fun _ h => h)
+        rw [this, pickD_self i.keys cs hkl hnd]; exact hl
+      · simp [hk, hl]
+      · simp only [hk, beq_self_eq_true, hl, Bool.and_true, Bool.true_and]; cases i.data.isSome <;> simp
+theorem STree.prefixL_refl : ∀ cs : List STree, STree.wfL cs = true → STree.prefixL cs cs = true
+  | [], _ => rfl
+  | c :: cs, h => by
+      simp only [STree.wfL, Bool.and_eq_true] at h
+      simp [STree.prefixL, STree.prefixB_refl c h.1, STree.prefixL_refl cs h.2]
+end
+
+mutual
+/-- **the first operand is a prefix of the merged shape** (the result keeps its node types, key order and
+custom entries, only leaves were replaced) -/
+theorem C09_lub_extends_left : ∀ a : STree, a.wf = true → ∀ b : STree, b.wf = true → ∀ c : STree,
+    a.lub b = some c → a.prefixB c = true
+  | .leaf, _, _, _, _, _ => rfl
+  | .node i cs, ha, .leaf, _, c, h => by
+      simp only [STree.lub, Option.some.injEq] at h
+      subst h
+      exact STree.prefixB_refl _ ha
+  | .node i cs, ha, .node j ds, hb, c, h => by
+      obtain ⟨hnl, hnone, hdict, hw⟩ := STree.wf_node ha
+      obtain ⟨_, _, hdictb, hwb⟩ := STree.wf_node hb
+      have key : ∀ (rc : List STree), rc.length = cs.length → STree.prefixL cs rc = true →
+          (i.kind.isDict = false) → (STree.node i cs).prefixB (.node i rc) = true := by
+        intro rc hl hp hnd
+        simp only [STree.prefixB, hl, beq_self_eq_true, Bool.true_and]
+        rcases Kind.cases_eq i.kind with hk | hk | hk | hk | hk | hk | hk | hk | hk | hk | hk <;>
+          first
+            | exact absurd hk hnl
+            | (simp [hk, Kind.isDict] at hnd; done)
+            | (simp [hk, hp]; done)
+      have keyD : ∀ (rc : List STree), rc.length = cs.length → STree.prefixL cs rc = true →
+          (i.kind.isDict = true) → (STree.node i cs).prefixB (.node i rc) = true := by
+        intro rc hl hp hd
+        obtain ⟨hkl, hnd⟩ := hdict hd
+        have hks : keySetEq i.keys i.keys = true := (keySetEq_iff _ _).mpr ⟨rfl, fun _ h => h⟩
+        have hpd := STree.prefixD_eq i.keys rc (by omega) i.keys cs hkl (fun _ h => h)
+        rw [pickD_self i.keys rc (by omega) hnd] at hpd
+        simp only [STree.prefixB, hl, beq_self_eq_true, Bool.true_and]
+        rcases Kind.cases_eq i.kind with hk | hk | hk | hk | hk | hk | hk | hk | hk | hk | hk <;>
+          first
+            | (simp [hk, Kind.isDict] at hd; done)
+            | (simp only [hk, Kind.isDict, hks, hpd, hp, Bool.true_and])
+      have seqCase : ∀ rc, STree.lubL cs ds = some rc → i.kind.isDict = false →
+          (STree.node i cs).prefixB (.node i rc) = true := fun rc hl hnd =>
+        key rc (STree.lubL_length cs ds rc hl).1 (C09_lubL_extends_left cs hw ds hwb rc hl) hnd
+      have dictCase : j.kind.isDict = true → keySetEq i.keys j.keys = true → i.kind.isDict = true →
+          ∀ rc, STree.lubD i.keys cs j.keys ds = some rc → (STree.node i cs).prefixB (.node i rc) = true := by
+        intro hjd hks hid rc hl
+        obtain ⟨hkl, hnd⟩ := hdict hid
+        obtain ⟨hklb, hndb⟩ := hdictb hjd
+        have hmem := ((keySetEq_iff _ _).mp hks).2
+        rw [STree.lubD_eq j.keys ds hklb i.keys cs hkl hmem] at hl
+        have hperm := pickD_perm hks hnd hndb hklb
+        exact keyD rc (STree.lubL_length cs _ rc hl).1
+          (C09_lubL_extends_left cs hw _ (STree.wfL_perm hperm hwb) rc hl) hid
+      simp only [STree.lub] at h
+      rcases Kind.cases_eq i.kind with hk | hk | hk | hk | hk | hk | hk | hk | hk | hk | hk
+      · -- custom
+        simp only [hk] at h
+        cases hci : i.custom with
+        | none => simp [hci] at h
+        | some r =>
+          cases hcj : j.custom with
+          | none => simp [hci, hcj] at h
+          | some r' =>
+            simp only [hci, hcj] at h
+            split at h
+            · simp at h
+            · cases hl : STree.lubL cs ds with
+              | none => simp [hl] at h
+              | some rc =>
+                simp only [hl, Option.map_some, Option.some.injEq] at h
+                subst h
+                exact seqCase rc hl (by simp [hk, Kind.isDict])
+      · exact absurd hk hnl
+      · simp only [hk] at h
+        split at h
+        · simp at h
+        · simp only [Option.some.injEq] at h; subst h; exact STree.prefixB_refl _ ha
+      · simp only [hk] at h
+        split at h
+        · simp at h
+        · cases hl : STree.lubL cs ds with
+          | none => simp [hl] at h
+          | some rc =>
+            simp only [hl, Option.map_some, Option.some.injEq] at h; subst h
+            exact seqCase rc hl (by simp [hk, Kind.isDict])
+      · simp only [hk] at h
+        split at h
+        · simp at h
+        · cases hl : STree.lubL cs ds with
+          | none => simp [hl] at h
+          | some rc =>
+            simp only [hl, Option.map_some, Option.some.injEq] at h; subst h
+            exact seqCase rc hl (by simp [hk, Kind.isDict])
+      · simp only [hk] at h
+        split at h
+        · simp at h
+        · rename_i hcond
+          simp only [Bool.or_eq_true, Bool.not_eq_true', not_or, Bool.not_eq_false] at hcond
+          cases hl : STree.lubD i.keys cs j.keys ds with
+          | none => simp [hl] at h
+          | some rc =>
+            simp only [hl, Option.map_some, Option.some.injEq] at h; subst h
+            exact dictCase hcond.1 hcond.2 (by simp [hk, Kind.isDict]) rc hl
+      · simp only [hk] at h
+        split at h
+        · simp at h
+        · cases hl : STree.lubL cs ds with
+          | none => simp [hl] at h
+          | some rc =>
+            simp only [hl, Option.map_some, Option.some.injEq] at h; subst h
+            exact seqCase rc hl (by simp [hk, Kind.isDict])
+      · simp only [hk] at h
+        split at h
+        · simp at h
+        · rename_i hcond
+          simp only [Bool.or_eq_true, Bool.not_eq_true', not_or, Bool.not_eq_false] at hcond
+          cases hl : STree.lubD i.keys cs j.keys ds with
+          | none => simp [hl] at h
+          | some rc =>
+            simp only [hl, Option.map_some, Option.some.injEq] at h; subst h
+            exact dictCase hcond.1 hcond.2 (by simp [hk, Kind.isDict]) rc hl
+      · simp only [hk] at h
+        split at h
+        · simp at h
+        · rename_i hcond
+          simp only [Bool.or_eq_true, Bool.not_eq_true', not_or, Bool.not_eq_false] at hcond
+          cases hl : STree.lubD i.keys cs j.keys ds with
+          | none => simp [hl] at h
+          | some rc =>
+            simp only [hl, Option.map_some, Option.some.injEq] at h; subst h
+            exact dictCase hcond.1 hcond.2 (by simp [hk, Kind.isDict]) rc hl
+      · simp only [hk] at h
+        split at h
+        · simp at h
+        · cases hl : STree.lubL cs ds with
+          | none => simp [hl] at h
+          | some rc =>
+            simp only [hl, Option.map_some, Option.some.injEq] at h; subst h
+            exact seqCase rc hl (by simp [hk, Kind.isDict])
+      · simp only [hk] at h
+        split at h
+        · simp at h
+        · cases hl : STree.lubL cs ds with
+          | none => simp [hl] at h
+          | some rc =>
+            simp only [hl, Option.map_some, Option.some.injEq] at h; subst h
+            exact seqCase rc hl (by simp [hk, Kind.isDict])
+theorem C09_lubL_extends_left : ∀ cs : List STree, STree.wfL cs = true → ∀ ds : List STree,
+    STree.wfL ds = true → ∀ rc : List STree, STree.lubL cs ds = some rc → STree.prefixL cs rc = true
+  | [], _, [], _, rc, h => by simp [STree.lubL] at h; subst h; rfl
+  | [], _, _ :: _, _, _, h => by simp [STree.lubL] at h
+  | _ :: _, _, [], _, _, h => by simp [STree.lubL] at h
+  | c :: cs, hw, d :: ds, hwd, rc, h => by
+      simp only [STree.wfL, Bool.and_eq_true] at hw hwd
+      simp only [STree.lubL] at h
+      cases h1 : c.lub d with
+      | none => simp [h1] at h
+      | some x =>
+        cases h2 : STree.lubL cs ds with
+        | none => simp [h1, h2] at h
+        | some xs =>
+          simp [h1, h2] at h
+          subst h
+          simp [STree.prefixL, C09_lub_extends_left c hw.1 d hwd.1 x h1,
+            C09_lubL_extends_left cs hw.2 ds hwd.2 xs h2]
+end
+
+/-- non-vacuity: `{"a": *, "b": (*, *)}` and `OrderedDict(b=*, a=[*])` merge to `{"a": [*], "b": (*, *)}` -/
+def C09_demoA : STree :=
+  .node ⟨.dict, .keys [.str "a", .str "b"], Option.none, Option.none, some [.str "a", .str "b"]⟩
+    [.leaf, .node ⟨.tuple, .none, Option.none, Option.none, Option.none⟩ [.leaf, .leaf]]
+def C09_demoB : STree :=
+  .node ⟨.ordereddict, .keys [.str "b", .str "a"], Option.none, Option.none, Option.none⟩
+    [.leaf, .node ⟨.list, .none, Option.none, Option.none, Option.none⟩ [.leaf]]
+
+example : C09_demoA.wf = true ∧ C09_demoA.fitsT = true ∧ C09_demoB.wf = true ∧ C09_demoB.fitsT = true ∧
+    ((C09_demoA.lub C09_demoB).map STree.leaves) = some 3 := by decide
 
 end Optree
